@@ -100,7 +100,7 @@ type Op struct {
 	K    string  `json:"k"`
 	Key  Bytes   `json:"key,omitempty"`
 	Val  *Val    `json:"val,omitempty"`
-	F2   Bytes   `json:"f2,omitempty"` // hash field / set or zset member
+	F2   Bytes   `json:"f2,omitempty"`   // hash field / set or zset member
 	Sub  []Op    `json:"sub,omitempty"`  // batch body / iterator calls
 	Cfg  *Config `json:"cfg,omitempty"`  // restart configuration
 	Flag bool    `json:"flag,omitempty"` // batch Sync option / iterator Reverse / fold early stop
@@ -129,25 +129,25 @@ type Damage struct {
 
 // Case is one complete, self-contained simulation input: execution is a pure function of it and of the code.
 type Case struct {
-	Prop     string     `json:"prop"`
-	Arm      string     `json:"arm"`
-	Seed     uint64     `json:"seed"`
-	Cfg      Config     `json:"cfg"`
-	Cfgs     []Config   `json:"cfgs,omitempty"` // C14: further configurations run in lock-step
-	Setup    []Op       `json:"setup,omitempty"`
-	Clients  [][]Op     `json:"clients"`
-	Sched    vrt.Policy `json:"sched"`
-	Clock    int64      `json:"clock"`
-	MapSeed  uint64     `json:"mapseed"`
-	Hostile  bool       `json:"hostile,omitempty"`
-	Crash    *Crash     `json:"crash,omitempty"`
-	Damage   *Damage    `json:"damage,omitempty"`
-	Free     int64      `json:"free,omitempty"`     // simulated free disk space (0 = plenty)
-	FaultAt  int        `json:"faultat,omitempty"`  // inject an I/O error at the n-th eligible call (+1; 0 = none)
-	PowerPct int        `json:"powerpct,omitempty"` // crash arms: percentage of positions that also get power-loss cuts
-	Cuts     int        `json:"cuts,omitempty"`     // power-loss cut vectors per chosen position
-	Knobs    map[string]int `json:"knobs,omitempty"` // arm-specific budgets (bit flips per run, ...)
-	Adaptive bool       `json:"-"`                  // generation in progress: ops are produced while executing
+	Prop     string         `json:"prop"`
+	Arm      string         `json:"arm"`
+	Seed     uint64         `json:"seed"`
+	Cfg      Config         `json:"cfg"`
+	Cfgs     []Config       `json:"cfgs,omitempty"` // C14: further configurations run in lock-step
+	Setup    []Op           `json:"setup,omitempty"`
+	Clients  [][]Op         `json:"clients"`
+	Sched    vrt.Policy     `json:"sched"`
+	Clock    int64          `json:"clock"`
+	MapSeed  uint64         `json:"mapseed"`
+	Hostile  bool           `json:"hostile,omitempty"`
+	Crash    *Crash         `json:"crash,omitempty"`
+	Damage   *Damage        `json:"damage,omitempty"`
+	Free     int64          `json:"free,omitempty"`     // simulated free disk space (0 = plenty)
+	FaultAt  int            `json:"faultat,omitempty"`  // inject an I/O error at the n-th eligible call (+1; 0 = none)
+	PowerPct int            `json:"powerpct,omitempty"` // crash arms: percentage of positions that also get power-loss cuts
+	Cuts     int            `json:"cuts,omitempty"`     // power-loss cut vectors per chosen position
+	Knobs    map[string]int `json:"knobs,omitempty"`    // arm-specific budgets (bit flips per run, ...)
+	Adaptive bool           `json:"-"`                  // generation in progress: ops are produced while executing
 }
 
 // Hash is a stable hash of the case content.
@@ -190,5 +190,5 @@ type Result struct {
 	Case       *Case            `json:"case,omitempty"` // present for violations and samples
 	WallUs     int64            `json:"wallus"`
 	Known      []KnownHit       `json:"known,omitempty"` // recorded known findings met (and stepped over) by this run
-	JournalH   uint64           `json:"journalh"` // hash of every journal entry (kind, path, offset, length, content crc, op, event stamp)
+	JournalH   uint64           `json:"journalh"`        // hash of every journal entry (kind, path, offset, length, content crc, op, event stamp)
 }
